@@ -35,6 +35,28 @@
 (* empty value counts as not defined, "live_map" = in a uri/uripost file   *)
 (* without `headers` option an entry sees header lines that FOLLOW it.     *)
 (*                                                                         *)
+(* connect gun (components/guns/http/connect.go): a case may carry          *)
+(* gun = "connect", cssl (option connect-ssl) and cstatus (what the proxy   *)
+(* answers to CONNECT).  The gun dials its target, optionally speaks TLS   *)
+(* to it (connect-ssl), sends `CONNECT <target> HTTP/1.1` with Host =      *)
+(* target, and after a 200 uses the connection as a tunnel: the ammo       *)
+(* request travels through it exactly as the http gun would send it (TLS   *)
+(* inside the tunnel iff ssl), so Wire(c) is unchanged.  Any other answer  *)
+(* to CONNECT fails the exchange: nothing reaches the origin, the shot     *)
+(* yields one failed sample.  "connect_plain" is the negative control (the *)
+(* gun ignores connect-ssl).                                               *)
+(*                                                                         *)
+(* header/date middleware (provider option `middlewares`): a case may      *)
+(* carry mw = [name, loc].  Acquire runs the middlewares on the built      *)
+(* request - after the ammo's and the option's headers are in place - and  *)
+(* header/date ADDS one field value, the current time in loc rendered with *)
+(* http.TimeFormat (token "DATE"; the instant travels separately as unix   *)
+(* seconds).  Side channels: side = [answlog, status, trace] switches the  *)
+(* gun's answlog (filter) and httptrace (dump + trace) on; they only       *)
+(* observe: the wire record and the sample are those of the plain gun, and *)
+(* the answer log gets one record per response its filter selects.         *)
+(* Negative controls: "mw_twice", "side_changes" (Content-Length dropped). *)
+(*                                                                         *)
 (* Multi-entry files: a file case f = [kind "file", fmt, ssl, preload,     *)
 (* opts, entries <<[hl, uri, body]>>]; hl are the header lines written     *)
 (* before the entry.  In uri/uripost files `[Name: value]` / `[Host: h]`   *)
@@ -54,6 +76,9 @@ CONSTANTS Formats,      \* subset of {"uri", "uripost", "raw", "json"}
           OptHdrs,      \* sequence of [n, v]: alphabet of option header fields (may contain Host)
           EmptyHdrs,    \* sequence of [n, v]: entry header fields with an empty / blank value (used one at a time)
           Files,        \* multi-entry file cases
+          MWNames,      \* header/date middleware: header names explored ("" = the default, Date); {} = none
+          SideFilters,  \* answlog filters explored with httptrace on/off ({} = no side-channel cases)
+          ConnectModes, \* connect gun: values of connect-ssl explored ({} = no connect cases)
           SSLModes,     \* subset of BOOLEAN
           CompressModes,\* subset of BOOLEAN (TRUE is explored in the side space only)
           Variant
@@ -73,6 +98,9 @@ SubSeqsOf(alpha) == { SelectSeq(alpha, LAMBDA x : x \in S) : S \in SUBSET Rng(al
 MethodsOf(f) == CASE f = "uri" -> {"GET"} [] f = "uripost" -> {"POST"} [] OTHER -> Methods
 BodiesOf(f)  == IF f = "uri" THEN {""} ELSE {""} \cup Bodies
 
+\* the header the header/date middleware writes
+MWHeader(n) == IF n = "" THEN "Date" ELSE n
+
 Case(f, s, z, m, u, h, eh, oh, b) ==
     [fmt |-> f, ssl |-> s, compress |-> z, method |-> m, uri |-> u, host |-> h, ehdr |-> eh, opts |-> oh, body |-> b]
 
@@ -89,6 +117,27 @@ Cases == UNION { { Case(f, s, FALSE, m, u, h, eh, oh, b) :
                  \* an entry header that is present with an empty (or blank) value, against every option list
                  { Case(f, s, FALSE, m, "/", FALSE, <<e>>, oh, b) :
                      m \in MethodsOf(f), b \in BodiesOf(f), s \in SSLModes, e \in Rng(EmptyHdrs), oh \in SubSeqsOf(OptHdrs) }
+                 \cup
+                 \* header/date middleware: default and custom header name, UTC and a named location, with and without
+                 \* an entry that defines the very header, no / all options
+                 UNION { { Case(f, FALSE, FALSE, m, "/", FALSE, eh, oh, b) @@ [mw |-> [name |-> hnm, loc |-> z]] :
+                             m \in MethodsOf(f), b \in BodiesOf(f), z \in {"", "EST"}, oh \in {<<>>, OptHdrs},
+                             eh \in {<<>>, << [n |-> MWHeader(hnm), v |-> "entry-value"] >>} }
+                         : hnm \in MWNames }
+                 \cup
+                 \* answlog / httptrace on: the target answers 200 / 404 / 503
+                 { Case(f, s, FALSE, m, "/", FALSE, ho[1], ho[2], b) @@ [side |-> [answlog |-> a, status |-> st, trace |-> t]] :
+                     m \in MethodsOf(f), b \in BodiesOf(f), s \in SSLModes \cap {FALSE}, a \in SideFilters, st \in {200, 404, 503},
+                     t \in BOOLEAN, ho \in {<< <<>>, <<>> >>, <<EntryHdrs, OptHdrs>>} }
+                 \cup
+                 \* the connect gun: same entry through a CONNECT tunnel, without any / with all entry and option headers
+                 { Case(f, s, FALSE, m, "/", h, ho[1], ho[2], b) @@ [gun |-> "connect", cssl |-> z, cstatus |-> 200] :
+                     m \in MethodsOf(f), b \in BodiesOf(f), s \in SSLModes, z \in ConnectModes, h \in BOOLEAN,
+                     ho \in {<< <<>>, <<>> >>, <<EntryHdrs, OptHdrs>>} }
+                 \cup
+                 \* ... and a proxy that refuses the tunnel
+                 { Case(f, FALSE, FALSE, m, "/", FALSE, <<>>, <<>>, "") @@ [gun |-> "connect", cssl |-> z, cstatus |-> st] :
+                     m \in MethodsOf(f), z \in ConnectModes \cap {FALSE}, st \in {403, 502} }
                  : f \in Formats }
 
 -----------------------------------------------------------------------------
@@ -126,7 +175,15 @@ WireHeaders(c) ==
             ELSE IF n \in entNames /\ ~(Variant = "empty_undefined" /\ n \in optNames /\ EmptyOnly(c.ehdr, n))
             THEN [n |-> n, v |-> IF Variant = "opt_always" THEN Vals(c.ehdr, n) \o Vals(c.opts, n) ELSE Vals(c.ehdr, n)]
             ELSE [n |-> n, v |-> Vals(c.opts, n)]
-    IN  {Field(n) : n \in entNames \cup optNames}
+        base == {Field(n) : n \in entNames \cup optNames}
+        \* header/date: one more value for its header, after whatever the entry / option put there
+        stamp == IF Variant = "mw_twice" THEN <<"DATE", "DATE">> ELSE <<"DATE">>
+        hn    == MWHeader(c.mw.name)
+    IN  IF "mw" \in DOMAIN c
+        THEN {w \in base : w.n # hn}
+             \cup {[n |-> hn, v |-> (IF \E w \in base : w.n = hn THEN (CHOOSE w \in base : w.n = hn).v ELSE <<>>) \o stamp]}
+        ELSE IF "side" \in DOMAIN c /\ Variant = "side_changes" THEN base \cup {[n |-> "X-Trace", v |-> <<"1">>]}
+        ELSE base
 
 Wire(c) == [scheme  |-> IF c.ssl THEN "https" ELSE "http",
             server  |-> "target",
@@ -139,6 +196,37 @@ Wire(c) == [scheme  |-> IF c.ssl THEN "https" ELSE "http",
 \* what the transport may add by itself (Go net/http defaults); names only
 AllowedExtra(c) == {"User-Agent", "Content-Length", "Transfer-Encoding"}
                    \cup (IF c.compress THEN {"Accept-Encoding"} ELSE {})
+
+\* ---- middleware / side channels ----
+IsMW(c)   == "mw" \in DOMAIN c
+IsSide(c) == "side" \in DOMAIN c
+\* o.dates: the instants (unix seconds, read in the configured location) of the DATE values; t0 / t1: the clock read by
+\* the driver before Acquire and after the shot (the middleware runs in between: a fact of program order)
+DatesOK(c, o, t0, t1) == IF IsMW(c) THEN Len(o.dates) = 1 /\ \A k \in DOMAIN o.dates : t0 <= o.dates[k] /\ o.dates[k] <= t1
+                         ELSE o.dates = <<>>
+\* answlog: filter all - every response; warning - status >= 400; error - status >= 500; off - nothing
+AnswRecords(c) == LET a == c.side.answlog st == c.side.status
+                  IN  IF a = "all" \/ (a = "warning" /\ st >= 400) \/ (a = "error" /\ st >= 500) THEN 1 ELSE 0
+\* the side channels only observe: one sample with the status received and net 0, the log gets what its filter selects
+SideOK(c, samples, answ) == IsSide(c) =>
+                               /\ Len(samples) = 1 /\ samples[1].proto = c.side.status /\ samples[1].net = 0
+                               /\ answ = AnswRecords(c)
+
+\* ---- connect gun ----
+IsConnect(c)    == "gun" \in DOMAIN c /\ c.gun = "connect"
+TunnelRefused(c) == IsConnect(c) /\ c.cstatus # 200
+\* the CONNECT the proxy must see: request-target and Host are the gun's target (token), TLS to the proxy iff connect-ssl
+ConnectLine(c) == [method |-> "CONNECT", uri |-> "GUNTARGET", host |-> "GUNTARGET",
+                   tls |-> IF Variant = "connect_plain" THEN FALSE ELSE c.cssl]
+\* o.connects: the CONNECTs the proxies saw while the case ran (a tunnel outlives a request: at most one new one)
+ConnectOK(c, o) == IF IsConnect(c)
+                   THEN /\ \A k \in DOMAIN o.connects : o.connects[k] = ConnectLine(c)
+                        /\ ~TunnelRefused(c) => Len(o.connects) <= 1
+                   ELSE o.connects = <<>>
+\* a refused tunnel: nothing reaches the origin, the shot reports exactly one failed sample (no status, net # 0)
+TunnelRefusedOK(c, o, samples) ==
+    /\ o.n = 0 /\ Len(o.connects) >= 1
+    /\ Len(samples) = 1 /\ samples[1].proto = 0 /\ samples[1].net # 0
 
 -----------------------------------------------------------------------------
 (* Acceptance of an observation o (what the recording target saw for case c):                       *)
@@ -187,12 +275,14 @@ Init == C \in Cases
 Next == UNCHANGED C
 
 \* "headers in the ammo file have priority": each name the entry defines arrives with the entry's values
-EntryWins == \A n \in Names(C.ehdr) : [n |-> n, v |-> Vals(C.ehdr, n)] \in Wire(C).headers
+\* (the header the header/date middleware stamps is covered by MiddlewareOnce)
+Stamped(n) == "mw" \in DOMAIN C /\ n = MWHeader(C.mw.name)
+EntryWins == \A n \in Names(C.ehdr) : Stamped(n) \/ [n |-> n, v |-> Vals(C.ehdr, n)] \in Wire(C).headers
 \* an option name is added (with all its values) exactly where the entry does not define that name
 OptionIffAbsent == \A n \in {o.n : o \in Rng(C.opts)} \ {"Host"} :
                       ([n |-> n, v |-> Vals(C.opts, n)] \in Wire(C).headers) <=> (n \notin Names(C.ehdr))
 \* nothing is invented and no name is carried twice
-NoInvention == /\ \A w \in Wire(C).headers : w.v = Vals(C.ehdr, w.n) \/ w.v = Vals(C.opts, w.n)
+NoInvention == /\ \A w \in Wire(C).headers : Stamped(w.n) \/ w.v = Vals(C.ehdr, w.n) \/ w.v = Vals(C.opts, w.n)
                /\ \A w1, w2 \in Wire(C).headers : w1.n = w2.n => w1 = w2
                /\ \A w \in Wire(C).headers : w.n # "Host" /\ w.v # <<>>
 \* Host: the ammo's, else the option's, else the target's
@@ -204,6 +294,24 @@ FormatsAlike == \A f \in Formats :
                    LET d == [C EXCEPT !.fmt = f]
                    IN  /\ Wire(d).headers = Wire(C).headers
                        /\ Wire(d).host = Wire(C).host
+\* the middleware stamps its header exactly once, after the entry's / option's values, and touches nothing else;
+\* the side channels change nothing
+Plain(c) == [k \in DOMAIN c \ {"mw", "side"} |-> c[k]]
+MiddlewareOnce == IsMW(C) =>
+                     LET hn == MWHeader(C.mw.name)
+                         f  == CHOOSE w \in Wire(C).headers : w.n = hn
+                         before == IF \E w \in Wire(Plain(C)).headers : w.n = hn
+                                   THEN (CHOOSE w \in Wire(Plain(C)).headers : w.n = hn).v ELSE <<>>
+                     IN  /\ f.v = before \o <<"DATE">>
+                         /\ {w \in Wire(C).headers : w.n # hn} = {w \in Wire(Plain(C)).headers : w.n # hn}
+                         /\ Wire(C).host = Wire(Plain(C)).host
+SideTransparent == IsSide(C) => Wire(C) = Wire(Plain(C))
+\* the tunnel is transparent: the connect gun's wire record is the http gun's; CONNECT names the gun's target and is
+\* sent over TLS exactly when connect-ssl is set
+TunnelTransparent == IsConnect(C) =>
+                        /\ Wire(C) = Wire([k \in DOMAIN C \ {"gun", "cssl", "cstatus"} |-> C[k]])
+                        /\ ConnectLine(C).uri = "GUNTARGET" /\ ConnectLine(C).host = ConnectLine(C).uri
+                        /\ ConnectLine(C).tls = C.cssl
 \* the rest is carried unchanged, the connection goes to the target with the configured scheme
 Unchanged == /\ Wire(C).method = C.method /\ Wire(C).uri = C.uri /\ Wire(C).body = C.body
              /\ Wire(C).server = "target" /\ (Wire(C).scheme = "https") = C.ssl
